@@ -62,14 +62,73 @@ Proof.
   rewrite Hkr. simpl. apply IH.
 Qed.
 
+Lemma removelast_length {A} (l : list A) : length (removelast l) = length l - 1.
+Proof.
+  induction l as [|a l IH]; [reflexivity|]. destruct l as [|b l]; [reflexivity|].
+  change (removelast (a :: b :: l)) with (a :: removelast (b :: l)). cbn [length] in *. lia.
+Qed.
+
+Lemma nth_error_removelast {A} (l : list A) : forall j, j < length l - 1 ->
+  nth_error (removelast l) j = nth_error l j.
+Proof.
+  induction l as [|a l IH]; intros j Hj; [simpl in Hj; lia|].
+  destruct l as [|b l]; [simpl in Hj; lia|].
+  change (removelast (a :: b :: l)) with (a :: removelast (b :: l)).
+  destruct j as [|j]; [reflexivity|]. cbn [nth_error]. apply IH. cbn [length] in *. lia.
+Qed.
+
+Lemma nth_removelast {A} (l : list A) d : forall j, j < length l - 1 -> nth j (removelast l) d = nth j l d.
+Proof.
+  induction l as [|a l IH]; intros j Hj; [simpl in Hj; lia|].
+  destruct l as [|b l]; [simpl in Hj; lia|].
+  change (removelast (a :: b :: l)) with (a :: removelast (b :: l)).
+  destruct j as [|j]; [reflexivity|]. cbn [nth]. apply IH. cbn [length] in *. lia.
+Qed.
+
+Lemma nth_tl {A} (l : list A) d j : nth j (tl l) d = nth (S j) l d.
+Proof. destruct l; destruct j; reflexivity. Qed.
+
 (* ===== beamspread: the loops with the source's indices = the list-level kernels ========== *)
 Section BeamIdx.
   Context {T : Type} (N : Num T).
 
-  (* a ray geometry consistent with n legs, n >= 1 *)
+  (* a ray geometry consistent with n legs, n >= 1.  REPAIR: rg_inc holds
+     conventional_inc_angle(1..n) and rg_out holds conventional_out_angle(0..n-1), n entries each
+     (they had the n - 1 interior entries only; see Model/PathReverse.v) *)
   Definition rg_wf (rg : raygeom T) (n : nat) : Prop :=
     1 <= n /\ rg_numinterfaces rg = S n /\ length (rg_vel rg) = n /\ length (rg_leg rg) = n /\
-    length (rg_inc rg) = n - 1 /\ length (rg_out rg) = n - 1.
+    length (rg_inc rg) = n /\ length (rg_out rg) = n.
+
+  (* the angles the two beamspread loops read: conventional_inc_angle(1..n-1), and the outgoing
+     angles at the same interior interfaces *)
+  Definition rg_inc_interior (rg : raygeom T) : list T := removelast (rg_inc rg).
+  Definition rg_out_interior (rg : raygeom T) : list T := tl (rg_out rg).
+
+  Lemma rg_interior_reverse rg :
+    rg_inc_interior (rg_reverse rg) = rev (rg_out_interior rg) /\
+    rg_out_interior (rg_reverse rg) = rev (rg_inc_interior rg).
+  Proof.
+    unfold rg_inc_interior, rg_out_interior, rg_reverse; cbn [rg_inc rg_out]. split.
+    - destruct (rg_out rg) as [|o t]; [reflexivity|]. cbn [rev tl].
+      rewrite removelast_app by discriminate. cbn [removelast]. apply app_nil_r.
+    - rewrite <- (rev_involutive (rg_inc rg)) at 2.
+      destruct (rev (rg_inc rg)) as [|o t]; [reflexivity|]. cbn [rev tl].
+      rewrite removelast_app by discriminate. cbn [removelast]. rewrite app_nil_r, rev_involutive. reflexivity.
+  Qed.
+
+  (* the kernel reads one angle per pair of consecutive velocities: further angles are ignored *)
+  Lemma gamma_list_app_extra vel : forall thetas extra, length vel <= S (length thetas) ->
+    gamma_list N vel (thetas ++ extra) = gamma_list N vel thetas.
+  Proof.
+    induction vel as [|v0 vel IH]; intros thetas extra H; [reflexivity|].
+    destruct vel as [|v1 vel]; [destruct (thetas ++ extra), thetas; reflexivity|].
+    destruct thetas as [|th thetas]; [cbn [length] in H; lia|].
+    change (gamma_list N (v0 :: v1 :: vel) ((th :: thetas) ++ extra))
+      with (gamma_of N v0 v1 th :: gamma_list N (v1 :: vel) (thetas ++ extra)).
+    change (gamma_list N (v0 :: v1 :: vel) (th :: thetas))
+      with (gamma_of N v0 v1 th :: gamma_list N (v1 :: vel) thetas).
+    f_equal. apply IH. cbn [length] in *. lia.
+  Qed.
 
   Lemma rg_wf_reverse rg n : rg_wf rg n -> rg_wf (rg_reverse rg) n.
   Proof.
@@ -145,7 +204,7 @@ Section BeamIdx.
     rg_conv_inc_angle rg i = Ok th.
   Proof.
     intros (Hn & Hni & _ & _ & Hl & _) Hk H. unfold rg_conv_inc_angle.
-    assert (i - 1 < n - 1) by (rewrite <- Hl; apply nth_error_Some; congruence).
+    assert (i - 1 < n) by (rewrite <- Hl; apply nth_error_Some; congruence).
     destruct (Nat.eqb_spec i 0); [lia|]. rewrite Hni.
     destruct (Nat.leb_spec (S n) i); [lia|]. apply lookup_ok. exact H.
   Qed.
@@ -166,20 +225,25 @@ Section BeamIdx.
     replace (1 + j) with (S j) by lia. rewrite (lookup_ok _ _ _ H3). reflexivity.
   Qed.
 
+  (* REPAIR: the reverse loop reads conventional_inc_angle(n - k), k = 1..n-1: the interior
+     entries of rg_inc (it was `rev (rg_inc rg)` when rg_inc had the interior entries only) *)
   Lemma rev_gamma_list_idx_eq rg n : rg_wf rg n ->
-    rev_gamma_list_idx N rg = Ok (rev_gamma_list N (rev (rg_vel rg)) (rev (rg_inc rg))).
+    rev_gamma_list_idx N rg = Ok (rev_gamma_list N (rev (rg_vel rg)) (rev (rg_inc_interior rg))).
   Proof.
     intros Hwf. pose proof Hwf as (Hn & Hni & Hv & Hl & Hi & Ho).
+    assert (Hii : length (rg_inc_interior rg) = n - 1)
+      by (unfold rg_inc_interior; rewrite removelast_length; lia).
     unfold rev_gamma_list_idx. rewrite Hni. replace (S n - 1) with n by lia.
     apply omapM_Forall2.
-    replace (n - 1) with (length (rev_gamma_list N (rev (rg_vel rg)) (rev (rg_inc rg))))
+    replace (n - 1) with (length (rev_gamma_list N (rev (rg_vel rg)) (rev (rg_inc_interior rg))))
       by (rewrite rev_gamma_list_length, !rev_length; lia).
     apply Forall2_seq. intros j g Hg.
     destruct (rev_gamma_list_nth _ _ _ _ Hg) as (th & vn & vp & H1 & H2 & H3 & ->).
     assert (Hj : j < n - 1).
-    { rewrite <- Hi, <- (rev_length (rg_inc rg)). apply nth_error_Some. congruence. }
+    { rewrite <- Hii, <- (rev_length (rg_inc_interior rg)). apply nth_error_Some. congruence. }
     rewrite nth_error_rev in H1 by lia. rewrite nth_error_rev in H2 by lia.
-    rewrite nth_error_rev in H3 by lia. rewrite Hi in H1. rewrite Hv in H2, H3.
+    rewrite nth_error_rev in H3 by lia. rewrite Hii in H1. rewrite Hv in H2, H3.
+    unfold rg_inc_interior in H1. rewrite nth_error_removelast in H1 by lia.
     rewrite (inc_angle_ok rg n (n - (1 + j)) th Hwf)
       by (try lia; replace (n - (1 + j) - 1) with (n - 1 - 1 - j) by lia; exact H1).
     cbn [obind]. unfold rg_velocity.
@@ -222,7 +286,7 @@ Section BeamIdx.
   Qed.
 
   Lemma reverse_beamspread_idx_eq rg n : rg_wf rg n ->
-    reverse_beamspread_idx N rg = Ok (reverse_beamspread N (rg_vel rg) (rg_leg rg) (rg_inc rg)).
+    reverse_beamspread_idx N rg = Ok (reverse_beamspread N (rg_vel rg) (rg_leg rg) (rg_inc_interior rg)).
   Proof.
     intros Hwf. pose proof Hwf as (Hn & Hni & Hv & Hl & Hi & Ho).
     unfold reverse_beamspread_idx. rewrite (rev_gamma_list_idx_eq rg n Hwf). cbn [obind].
@@ -438,21 +502,6 @@ Section ObjectsRev.
 End ObjectsRev.
 
 (* ===== more list facts ==================================================================== *)
-Lemma removelast_length {A} (l : list A) : length (removelast l) = length l - 1.
-Proof.
-  induction l as [|a l IH]; [reflexivity|]. destruct l as [|b l]; [reflexivity|].
-  change (removelast (a :: b :: l)) with (a :: removelast (b :: l)). cbn [length] in *. lia.
-Qed.
-
-Lemma nth_error_removelast {A} (l : list A) : forall j, j < length l - 1 ->
-  nth_error (removelast l) j = nth_error l j.
-Proof.
-  induction l as [|a l IH]; intros j Hj; [simpl in Hj; lia|].
-  destruct l as [|b l]; [simpl in Hj; lia|].
-  change (removelast (a :: b :: l)) with (a :: removelast (b :: l)).
-  destruct j as [|j]; [reflexivity|]. cbn [nth_error]. apply IH. cbn [length] in *. lia.
-Qed.
-
 Lemma interior_length {A} (l : list A) : length (interior l) = length l - 2.
 Proof. unfold interior. rewrite removelast_length. destruct l; simpl; lia. Qed.
 
@@ -570,10 +619,11 @@ Section TransReflRev.
     fr_inc : T; fr_out : T                         (* conventional inc / out angles at i *)
   }.
 
+  (* interface i = 1 + j: rg_inc[i - 1], rg_out[i] *)
   Definition frame_at (p : ppath T) (rg : raygeom T) (j : nat) : option frame :=
     match nth_error (pp_interfaces p) (S j), nth_error (pp_materials p) j, nth_error (pp_materials p) (S j),
           nth_error (pp_modes p) j, nth_error (pp_modes p) (S j),
-          nth_error (rg_inc rg) j, nth_error (rg_out rg) j with
+          nth_error (rg_inc rg) j, nth_error (rg_out rg) (S j) with
     | Some x, Some mp, Some mn, Some mdp, Some mdn, Some th, Some tho =>
         Some (mkFrame x mp mn mdp mdn th tho)
     | _, _, _, _, _, _, _ => None
@@ -599,6 +649,16 @@ Section TransReflRev.
                      (emb (pm_velocity (fr_mn fr) (fr_mdn fr)))
     end.
 
+  (* REPAIR: one of the two velocities the reverse function hands to snell_angles is None
+     (the T mode in a fluid): TypeError before the helper is entered *)
+  Definition rev_vel_missing (fr : frame) : bool :=
+    match pi_tr (fr_x fr) with
+    | Some Reflection =>
+        pm_velocity_missing (fr_mn fr) (fr_mdp fr) || pm_velocity_missing (fr_mn fr) (fr_mdn fr)
+    | _ =>
+        pm_velocity_missing (fr_mp fr) (fr_mdp fr) || pm_velocity_missing (fr_mn fr) (fr_mdn fr)
+    end.
+
   Definition stepR_fr (u : option cunit) (fr : frame) : outcome K :=
     match pi_tr (fr_x fr) with
     | None => Raise EAssert
@@ -606,10 +666,12 @@ Section TransReflRev.
         match pi_kind (fr_x fr) with
         | None => Raise EAttr
         | Some k =>
+            if rev_vel_missing fr then Raise EHelper else
             transmission_call NK emb (Some (ikind_reverse k)) (fr_mn fr) (fr_mp fr) (fr_mdn fr) (fr_mdp fr)
                               (rev_angle fr) u
         end
     | Some Reflection =>
+        if rev_vel_missing fr then Raise EHelper else
         reflection_call NK emb (pi_kind (fr_x fr)) (fr_mn fr) (pi_against (fr_x fr)) (fr_mdn fr) (fr_mdp fr)
                         (rev_angle fr) u
     end.
@@ -627,7 +689,7 @@ Section TransReflRev.
     destruct (nth_error (pp_modes p) j) eqn:E4; [|apply nth_error_None in E4; lia].
     destruct (nth_error (pp_modes p) (S j)) eqn:E5; [|apply nth_error_None in E5; lia].
     destruct (nth_error (rg_inc rg) j) eqn:E6; [|apply nth_error_None in E6; lia].
-    destruct (nth_error (rg_out rg) j) eqn:E7; [|apply nth_error_None in E7; lia].
+    destruct (nth_error (rg_out rg) (S j)) eqn:E7; [|apply nth_error_None in E7; lia].
     eexists; reflexivity.
   Qed.
 
@@ -635,7 +697,7 @@ Section TransReflRev.
     nth_error (pp_interfaces p) (S j) = Some (fr_x fr) /\
     nth_error (pp_materials p) j = Some (fr_mp fr) /\ nth_error (pp_materials p) (S j) = Some (fr_mn fr) /\
     nth_error (pp_modes p) j = Some (fr_mdp fr) /\ nth_error (pp_modes p) (S j) = Some (fr_mdn fr) /\
-    nth_error (rg_inc rg) j = Some (fr_inc fr) /\ nth_error (rg_out rg) j = Some (fr_out fr).
+    nth_error (rg_inc rg) j = Some (fr_inc fr) /\ nth_error (rg_out rg) (S j) = Some (fr_out fr).
   Proof.
     unfold frame_at. intros H.
     destruct (nth_error (pp_interfaces p) (S j)); [|discriminate].
@@ -644,7 +706,7 @@ Section TransReflRev.
     destruct (nth_error (pp_modes p) j); [|discriminate].
     destruct (nth_error (pp_modes p) (S j)); [|discriminate].
     destruct (nth_error (rg_inc rg) j); [|discriminate].
-    destruct (nth_error (rg_out rg) j); [|discriminate].
+    destruct (nth_error (rg_out rg) (S j)); [|discriminate].
     inversion H; subst; cbn. repeat split; reflexivity.
   Qed.
 
@@ -665,7 +727,7 @@ Section TransReflRev.
     tr_step_reverse N NK emb p rg u (1 + j) (fr_x fr) = stepR_fr u fr.
   Proof.
     intros (Hwf & _) H. destruct (frame_at_inv _ _ _ _ H) as (H1 & H2 & H3 & H4 & H5 & H6 & H7).
-    unfold tr_step_reverse, stepR_fr, rev_angle. destruct (pi_tr (fr_x fr)) as [tr|]; [|reflexivity].
+    unfold tr_step_reverse, stepR_fr, rev_angle, rev_vel_missing. destruct (pi_tr (fr_x fr)) as [tr|]; [|reflexivity].
     replace (1 + j - 1) with j by lia. replace (1 + j) with (S j) by lia.
     rewrite (lookup_ok _ _ _ H5), (lookup_ok _ _ _ H3), (lookup_ok _ _ _ H4). cbn [obind].
     rewrite (inc_angle_ok rg n (S j) (fr_inc fr) Hwf) by (try lia; replace (S j - 1) with j by lia; exact H6).
@@ -699,7 +761,6 @@ Section TransReflRev.
     replace (S n - 1 - S (n - 2 - j)) with (S j) by lia.
     replace (n - 1 - (n - 2 - j)) with (S j) by lia.
     replace (n - 1 - S (n - 2 - j)) with j by lia.
-    replace (n - 1 - 1 - (n - 2 - j)) with j by lia.
     rewrite Hy, H3, H4, H5, H6, H7, H8. reflexivity.
   Qed.
 
@@ -708,25 +769,59 @@ Section TransReflRev.
   Definition snell_frames (p : ppath T) (rg : raygeom T) : Prop :=
     forall j fr, frame_at p rg j = Some fr -> pi_tr (fr_x fr) <> None -> rev_angle fr = emb (fr_out fr).
 
+  (* REPAIR: where the reverse function raises TypeError on a None velocity before the helper,
+     the helper called by the DIRECT function on the reversed path raises too (ValueError /
+     NotImplementedError / AttributeError from its own checks, or an exception of class EHelper:
+     the None velocity belongs to the material in the solid role, or the mode combination is
+     one the helper rejects) *)
+  Lemma transmission_call_raises_missing k (m_inc m_out : pmaterial T) mi mo a u :
+    pm_velocity_missing m_out mo || pm_velocity_missing m_inc mi = true ->
+    exists e, transmission_call NK emb (Some k) m_inc m_out mi mo a u = Raise e.
+  Proof.
+    unfold transmission_call, pm_velocity_missing, pm_velocity_opt, pm_vt_missing. intros H.
+    destruct u as [u|]; [|eexists; reflexivity].
+    destruct k, mi, mo, (pm_vt m_inc), (pm_vt m_out); cbn [orb] in H; try discriminate;
+      eexists; reflexivity.
+  Qed.
+
+  Lemma reflection_call_raises_missing kind (m_inc : pmaterial T) ag mi mo a u :
+    pm_velocity_missing m_inc mo || pm_velocity_missing m_inc mi = true ->
+    exists e, reflection_call NK emb kind m_inc ag mi mo a u = Raise e.
+  Proof.
+    unfold reflection_call, pm_velocity_missing, pm_velocity_opt, pm_vt_missing. intros H.
+    destruct u as [u|]; [|eexists; reflexivity].
+    destruct kind as [k|]; [|eexists; reflexivity].
+    destruct ag as [ag|]; [|eexists; reflexivity].
+    destruct k, mi, mo, (pm_vt m_inc), (pm_vt ag); cbn [orb] in H; try discriminate;
+      eexists; reflexivity.
+  Qed.
+
+  Lemma same_outcome_raise_l {A} e (r : outcome A) : (exists e', r = Raise e') -> same_outcome (Raise e) r.
+  Proof. intros [e' ->]. exact I. Qed.
+
   (* one interface: the reverse body on the path = the direct body on the reversed path *)
   Lemma step_sim u fr y : pint_reverse (fr_x fr) = Ok y ->
     (pi_tr (fr_x fr) <> None -> rev_angle fr = emb (fr_out fr)) ->
     same_outcome (stepR_fr u fr) (stepF_fr u (frame_flip fr y)).
   Proof.
     intros Hy Hang. destruct (pint_reverse_fields _ _ Hy) as (_ & Htr & Hag & _ & _ & Hk & _ & _).
-    unfold stepR_fr, stepF_fr, frame_flip. cbn [fr_x fr_mp fr_mn fr_mdp fr_mdn fr_inc fr_out].
+    unfold stepR_fr, stepF_fr, frame_flip, rev_vel_missing. cbn [fr_x fr_mp fr_mn fr_mdp fr_mdn fr_inc fr_out].
     rewrite Htr, Hag, Hk.
     destruct (pi_tr (fr_x fr)) as [[|]|] eqn:Etr; [| |exact I].
     - rewrite Hang by discriminate.
       destruct (pi_kind (fr_x fr)) as [k|].
-      + destruct (transmission_call NK emb (Some (ikind_reverse k)) (fr_mn fr) (fr_mp fr) (fr_mdn fr) (fr_mdp fr)
-                    (emb (fr_out fr)) u); [exact eq_refl | exact I].
+      + destruct (pm_velocity_missing (fr_mp fr) (fr_mdp fr) || pm_velocity_missing (fr_mn fr) (fr_mdn fr)) eqn:Em.
+        * apply same_outcome_raise_l. apply transmission_call_raises_missing. exact Em.
+        * destruct (transmission_call NK emb (Some (ikind_reverse k)) (fr_mn fr) (fr_mp fr) (fr_mdn fr) (fr_mdp fr)
+                      (emb (fr_out fr)) u); [exact eq_refl | exact I].
       + unfold transmission_call. destruct u; exact I.
     - rewrite Hang by discriminate.
-      destruct (pi_kind (fr_x fr)) as [k|]; cbn zeta;
-        match goal with
-        | |- same_outcome ?a ?a => destruct a; [exact eq_refl | exact I]
-        end.
+      destruct (pm_velocity_missing (fr_mn fr) (fr_mdp fr) || pm_velocity_missing (fr_mn fr) (fr_mdn fr)) eqn:Em.
+      + apply same_outcome_raise_l. apply reflection_call_raises_missing. exact Em.
+      + destruct (pi_kind (fr_x fr)) as [k|]; cbn zeta;
+          match goal with
+          | |- same_outcome ?a ?a => destruct a; [exact eq_refl | exact I]
+          end.
   Qed.
 
   (* THE THEOREM: for a ray obeying Snell's law, the reverse product computed on the path is the
@@ -787,14 +882,29 @@ Section ViewOld.
     destruct (nth_error (pp_modes p) (i - 1)) as [mdp|] eqn:E3; [|discriminate].
     destruct (nth_error (pp_modes p) i) as [mdn|] eqn:E4; [|discriminate].
     destruct (nth_error (rg_inc rg) (i - 1)) as [th|] eqn:E5; [|discriminate].
+    destruct (solid_roles_ok k tr mp mn (pi_against x)) eqn:Esr; cbn [negb] in H; [|discriminate].
     unfold tr_step_forward. rewrite Etr, (lookup_ok _ _ _ E1), (lookup_ok _ _ _ E3), (lookup_ok _ _ _ E4).
     cbn [obind]. rewrite (inc_angle_ok rg n i th Hwf Hi E5). cbn [obind].
     destruct tr.
     - inversion H; subst y. rewrite (lookup_ok _ _ _ E2). cbn [obind].
-      unfold transmission_call, tr_forward. rewrite Ek. cbn. reflexivity.
+      unfold transmission_call, tr_forward. rewrite Ek.
+      destruct k; cbn [solid_roles_ok] in Esr; apply negb_true_iff in Esr; rewrite Esr; cbn; reflexivity.
     - destruct (pi_against x) as [ag|] eqn:Eag; [|discriminate]. inversion H; subst y.
-      unfold reflection_call, tr_forward. rewrite Ek. cbn. reflexivity.
+      unfold reflection_call, tr_forward. rewrite Ek.
+      destruct k; cbn [solid_roles_ok] in Esr;
+        [ apply negb_true_iff in Esr
+        | apply andb_true_iff in Esr; destruct Esr as [Esr _]; apply negb_true_iff in Esr ];
+        rewrite Esr; cbn; reflexivity.
   Qed.
+
+  (* the kernels reject the T mode on the fluid side *)
+  Lemma kernel_rejects (mi mo : material K) a u :
+    (forall md, transmission_at_interface NK FluidSolid mi mo ModeT md a u = None) /\
+    (forall md, transmission_at_interface NK SolidFluid mi mo md ModeT a u = None) /\
+    reflection_at_interface NK FluidSolid mi mo ModeT ModeL a u = None /\
+    reflection_at_interface NK FluidSolid mi mo ModeL ModeT a u = None /\
+    reflection_at_interface NK FluidSolid mi mo ModeT ModeT a u = None.
+  Proof. repeat split; intros; try destruct md; reflexivity. Qed.
 
   Lemma step_view_rev p rg n u i x y : rg_wf rg n -> 1 <= i -> view_iface emb p rg i x = Some y ->
     (i_trans y = false -> forall th mn mdp mdn,
@@ -812,17 +922,43 @@ Section ViewOld.
     destruct (nth_error (pp_modes p) (i - 1)) as [mdp|] eqn:E3; [|discriminate].
     destruct (nth_error (pp_modes p) i) as [mdn|] eqn:E4; [|discriminate].
     destruct (nth_error (rg_inc rg) (i - 1)) as [th|] eqn:E5; [|discriminate].
+    destruct (solid_roles_ok k tr mp mn (pi_against x)) eqn:Esr; cbn [negb] in H; [|discriminate].
     unfold tr_step_reverse. rewrite Etr, (lookup_ok _ _ _ E4), (lookup_ok _ _ _ E2), (lookup_ok _ _ _ E3).
     cbn [obind]. rewrite (inc_angle_ok rg n i th Hwf Hi E5). cbn [obind].
     destruct tr.
     - inversion H; subst y. rewrite (lookup_ok _ _ _ E1). cbn [obind]. rewrite Ek.
-      unfold transmission_call, tr_reverse. cbn [i_trans i_kind i_mprev i_mnext i_modeprev i_modenext i_theta].
-      rewrite !velocity_kmat. reflexivity.
+      unfold tr_reverse. cbn [i_trans i_kind i_mprev i_mnext i_modeprev i_modenext i_theta].
+      destruct (pm_velocity_missing mp mdp || pm_velocity_missing mn mdn) eqn:Em.
+      + (* a None velocity on the fluid side (the solid side has its transverse velocity): the
+           kernel rejects the mode combination *)
+        destruct (kernel_rejects (kmat emb mn) (kmat emb mp)
+                    (snell_angles NK (emb th) (velocity (kmat emb mp) mdp) (velocity (kmat emb mn) mdn)) u)
+          as (R1 & R2 & _).
+        destruct k; cbn [solid_roles_ok ikind_reverse] in *;
+          unfold pm_velocity_missing, pm_velocity_opt, pm_vt_missing in *;
+          destruct mdp, mdn, (pm_vt mp), (pm_vt mn); cbn [negb orb] in *;
+          try discriminate; rewrite ?R1, ?R2; reflexivity.
+      + unfold transmission_call.
+        assert (Hs : pm_vt_missing (match ikind_reverse k with FluidSolid => mp | SolidFluid => mn end) = false)
+          by (destruct k; cbn [solid_roles_ok ikind_reverse] in *; apply negb_true_iff in Esr; exact Esr).
+        rewrite Hs. rewrite !velocity_kmat. reflexivity.
     - destruct (pi_against x) as [ag|] eqn:Eag; [|discriminate]. inversion H; subst y.
-      rewrite (Hemb eq_refl th mn mdp mdn eq_refl eq_refl eq_refl eq_refl).
-      unfold reflection_call, tr_reverse. rewrite Ek.
-      cbn [i_trans i_kind i_mprev i_mnext i_modeprev i_modenext i_theta i_against].
-      rewrite !velocity_kmat. reflexivity.
+      unfold tr_reverse. cbn [i_trans i_kind i_mprev i_mnext i_modeprev i_modenext i_theta i_against].
+      destruct (pm_velocity_missing mn mdp || pm_velocity_missing mn mdn) eqn:Em.
+      + destruct (kernel_rejects (kmat emb mn) (kmat emb ag)
+                    (snell_angles NK (emb th) (velocity (kmat emb mn) mdp) (velocity (kmat emb mn) mdn)) u)
+          as (_ & _ & R3 & R4 & R5).
+        destruct k; cbn [solid_roles_ok] in *;
+          unfold pm_velocity_missing, pm_velocity_opt, pm_vt_missing in *;
+          destruct mdp, mdn, (pm_vt mp), (pm_vt mn); cbn [negb orb andb] in *;
+          try discriminate; rewrite ?R3, ?R4, ?R5; reflexivity.
+      + rewrite (Hemb eq_refl th mn mdp mdn eq_refl eq_refl eq_refl eq_refl).
+        unfold reflection_call. rewrite Ek.
+        assert (Hs : pm_vt_missing (match k with FluidSolid => ag | SolidFluid => mn end) = false).
+        { destruct k; cbn [solid_roles_ok] in Esr;
+            [ apply negb_true_iff in Esr; exact Esr
+            | apply andb_true_iff in Esr; destruct Esr as [_ Esr]; apply negb_true_iff in Esr; exact Esr ]. }
+        rewrite Hs. rewrite !velocity_kmat. reflexivity.
   Qed.
 
   Lemma collect_view (step : nat -> pinterface T -> outcome K) (f : iface (K:=K) -> option K) p rg :
@@ -938,25 +1074,38 @@ Section ErrorBranches.
     nth_error (steps step 1 L) j = Some (Raise e) -> tr_loop NK step 1 L None = Raise e.
   Proof. intros H1 H2. rewrite tr_loop_spec, (collect_first_error _ j e H1 H2). reflexivity. Qed.
 
-  (* the exception of each branch of the two loop bodies *)
+  (* the exception of each branch of the two loop bodies.  REPAIR: in the reverse body a None
+     velocity handed to snell_angles (rev_vel_missing: the T mode in a fluid) raises TypeError
+     (class EHelper) BEFORE the helper looks at the unit, the kind or reflection_against, and
+     after interface.kind.reverse() of a transmission; the old statement (EValue / ENotImpl /
+     EAttr of the reverse body) is the case rev_vel_missing fr = false *)
   Lemma step_error_kinds (fr : frame (T:=T)) :
     (pi_tr (fr_x fr) = None ->
        forall u, stepF_fr NK emb u fr = Raise EAssert /\ stepR_fr N NK emb u fr = Raise EAssert) /\
     (pi_tr (fr_x fr) <> None ->
        stepF_fr NK emb None fr = Raise EValue /\
-       (stepR_fr N NK emb None fr = Raise EValue \/
-        (pi_tr (fr_x fr) = Some Transmission /\ pi_kind (fr_x fr) = None /\ stepR_fr N NK emb None fr = Raise EAttr))) /\
+       stepR_fr N NK emb None fr =
+         Raise (if match pi_tr (fr_x fr), pi_kind (fr_x fr) with
+                   | Some Transmission, None => true
+                   | _, _ => false
+                   end then EAttr
+                else if rev_vel_missing fr then EHelper else EValue)) /\
     (pi_tr (fr_x fr) = Some Transmission -> pi_kind (fr_x fr) = None ->
        forall u, stepF_fr NK emb (Some u) fr = Raise ENotImpl /\ stepR_fr N NK emb (Some u) fr = Raise EAttr) /\
     (pi_tr (fr_x fr) = Some Reflection -> pi_kind (fr_x fr) = None ->
-       forall u, stepF_fr NK emb (Some u) fr = Raise ENotImpl /\ stepR_fr N NK emb (Some u) fr = Raise ENotImpl) /\
+       forall u, stepF_fr NK emb (Some u) fr = Raise ENotImpl /\
+                 stepR_fr N NK emb (Some u) fr = Raise (if rev_vel_missing fr then EHelper else ENotImpl)) /\
     (pi_tr (fr_x fr) = Some Reflection -> pi_kind (fr_x fr) <> None -> pi_against (fr_x fr) = None ->
-       forall u, stepF_fr NK emb (Some u) fr = Raise EAttr /\ stepR_fr N NK emb (Some u) fr = Raise EAttr).
+       forall u, stepF_fr NK emb (Some u) fr = Raise EAttr /\
+                 stepR_fr N NK emb (Some u) fr = Raise (if rev_vel_missing fr then EHelper else EAttr)) /\
+    (pi_tr (fr_x fr) <> None -> (pi_tr (fr_x fr) = Some Transmission -> pi_kind (fr_x fr) <> None) ->
+       rev_vel_missing fr = true -> forall u, stepR_fr N NK emb u fr = Raise EHelper).
   Proof.
     unfold stepF_fr, stepR_fr, transmission_call, reflection_call.
+    destruct (rev_vel_missing fr);
     destruct (pi_tr (fr_x fr)) as [[|]|]; destruct (pi_kind (fr_x fr)) as [k|]; destruct (pi_against (fr_x fr));
       repeat split; intros; try congruence; try discriminate; try reflexivity;
-      try (left; reflexivity); try (right; repeat split; reflexivity).
+      try match goal with H : ?a -> _ <> _ |- _ => exfalso; apply H; reflexivity end.
   Qed.
 End ErrorBranches.
 
@@ -1030,12 +1179,14 @@ Section RealSnell.
   Lemma same_outcome_ok_r {A} (r1 r2 : outcome A) v : same_outcome r1 r2 -> r2 = Ok v -> r1 = Ok v.
   Proof. intros H E. subst r2. destruct r1; cbn in H; [congruence | contradiction]. Qed.
 
-  (* ---- Snell's law stated on the ray geometry alone (what the beamspread reads) ---- *)
+  (* ---- Snell's law stated on the ray geometry alone (what the beamspread reads) ----
+     at the interior interface i = 1 + j: inc(i) = rg_inc[j], out(i) = rg_out[1 + j] (REPAIR: rg_out
+     now starts at the first interface) *)
   Definition snell_ray (rg : raygeom R) (n : nat) : Prop :=
     forall j, (j < n - 1)%nat ->
       0 < nth j (rg_vel rg) 0 /\ 0 < nth (S j) (rg_vel rg) 0 /\
-      sin (nth j (rg_out rg) 0) = nth (S j) (rg_vel rg) 0 / nth j (rg_vel rg) 0 * sin (nth j (rg_inc rg) 0) /\
-      - (PI / 2) < nth j (rg_out rg) 0 < PI / 2.
+      sin (nth (S j) (rg_out rg) 0) = nth (S j) (rg_vel rg) 0 / nth j (rg_vel rg) 0 * sin (nth j (rg_inc rg) 0) /\
+      - (PI / 2) < nth (S j) (rg_out rg) 0 < PI / 2.
 
   Lemma snell_images_of_nth : forall ths rvel ths',
     length ths = length ths' -> length rvel = S (length ths) ->
@@ -1057,12 +1208,17 @@ Section RealSnell.
   Qed.
 
   Lemma snell_ray_images rg n : rg_wf rg n -> snell_ray rg n ->
-    snell_images (rev (rg_vel rg)) (rev (rg_inc rg)) (rev (rg_out rg)).
+    snell_images (rev (rg_vel rg)) (rev (rg_inc_interior rg)) (rev (rg_out_interior rg)).
   Proof.
     intros (Hn & Hni & Hv & Hl & Hi & Ho) Hs.
+    assert (Hii : length (rg_inc_interior rg) = (n - 1)%nat)
+      by (unfold rg_inc_interior; rewrite removelast_length; lia).
+    assert (Hoi : length (rg_out_interior rg) = (n - 1)%nat)
+      by (unfold rg_out_interior; destruct (rg_out rg); cbn [tl length] in *; lia).
     apply snell_images_of_nth; rewrite ?rev_length; try lia.
-    intros j Hj. rewrite Hi in Hj.
-    rewrite !rev_nth by lia. rewrite Hv, Hi, Ho.
+    intros j Hj. rewrite Hii in Hj.
+    rewrite !rev_nth by lia. rewrite Hv, Hii, Hoi.
+    unfold rg_inc_interior, rg_out_interior. rewrite nth_removelast by lia. rewrite nth_tl.
     destruct (Hs (n - 1 - S j)%nat ltac:(lia)) as (A1 & A2 & A3 & A4).
     replace (n - S (S j))%nat with (n - 1 - S j)%nat by lia.
     replace (n - S j)%nat with (S (n - 1 - S j))%nat by lia.
@@ -1078,9 +1234,16 @@ Section RealSnell.
     intros Hwf Hs. rewrite (reverse_beamspread_idx_eq NumR rg n Hwf).
     rewrite (beamspread_idx_eq NumR (rg_reverse rg) n (rg_wf_reverse rg n Hwf)).
     unfold rg_reverse; cbn [rg_vel rg_leg rg_inc]. f_equal.
-    apply reverse_beamspread_eq.
-    - apply (snell_ray_images rg n Hwf Hs).
-    - destruct Hwf as (_ & _ & _ & _ & Hi & Ho). rewrite rev_length. congruence.
+    pose proof Hwf as (Hn & _ & Hv & _ & Hi & Ho).
+    (* the kernel on the reversed ray ignores the angle of its last interface *)
+    transitivity (beamspread NumR (rev (rg_vel rg)) (rev (rg_leg rg)) (rev (rg_out_interior rg))).
+    - apply reverse_beamspread_eq.
+      + apply (snell_ray_images rg n Hwf Hs).
+      + rewrite rev_length. unfold rg_inc_interior, rg_out_interior. rewrite removelast_length.
+        destruct (rg_out rg); cbn [tl length] in *; lia.
+    - unfold beamspread, rg_out_interior.
+      destruct (rg_out rg) as [|o t]; [reflexivity|]. cbn [tl rev].
+      rewrite gamma_list_app_extra; [reflexivity|]. rewrite !rev_length. cbn [length] in Ho. lia.
   Qed.
 
   (* ... and the other way round (the involution) *)
@@ -1122,11 +1285,31 @@ Section RealSnell.
 
   Lemma ppath_velocities_nth (p : ppath R) j m md :
     nth_error (pp_materials p) j = Some m -> nth_error (pp_modes p) j = Some md ->
-    nth j (ppath_velocities p) 0 = pm_velocity m md.
+    nth_error (ppath_velocities p) j = Some (pm_velocity_opt m md).
   Proof.
-    intros H1 H2. apply nth_error_nth. unfold ppath_velocities.
-    apply (map_nth_error (fun mm => pm_velocity (fst mm) (snd mm)) j (combine (pp_materials p) (pp_modes p))
+    intros H1 H2. unfold ppath_velocities.
+    apply (map_nth_error (fun mm => pm_velocity_opt (fst mm) (snd mm)) j (combine (pp_materials p) (pp_modes p))
                          (nth_error_combine _ _ _ _ _ H1 H2)).
+  Qed.
+
+  Lemma pm_velocity_of_opt (m : pmaterial R) md v : pm_velocity_opt m md = Some v -> pm_velocity m md = v.
+  Proof.
+    unfold pm_velocity_opt, pm_velocity, pm_vt_num. destruct md; intros H; [congruence|].
+    rewrite H. reflexivity.
+  Qed.
+
+  (* REPAIR: Path.velocities may hold None (the T mode in a fluid); the velocities of the Fermat
+     path are numbers: `map Some (rg_vel rg) = ppath_velocities p` says that every leg of the path
+     has a velocity and that these are the ray geometry's (it was `rg_vel rg = ppath_velocities p`
+     when the model had no None velocity) *)
+  Lemma rg_vel_nth (p : ppath R) rg j m md : map Some (rg_vel rg) = ppath_velocities p ->
+    nth_error (pp_materials p) j = Some m -> nth_error (pp_modes p) j = Some md ->
+    nth j (rg_vel rg) 0 = pm_velocity m md.
+  Proof.
+    intros Hvel H1 H2. pose proof (ppath_velocities_nth p j m md H1 H2) as H.
+    rewrite <- Hvel in H. rewrite nth_error_map in H.
+    destruct (nth_error (rg_vel rg) j) as [v|] eqn:E; cbn [option_map] in H; [|discriminate].
+    rewrite (nth_error_nth _ _ 0 E). symmetry. apply pm_velocity_of_opt. congruence.
   Qed.
 
   (* reflections happen inside one medium: materials[i-1] and materials[i] carry the incoming
@@ -1135,17 +1318,17 @@ Section RealSnell.
     forall j fr, frame_at p rg j = Some fr -> pi_tr (fr_x fr) = Some Reflection ->
       pm_velocity (fr_mp fr) (fr_mdp fr) = pm_velocity (fr_mn fr) (fr_mdp fr).
 
-  Lemma snell_ray_path p rg n : path_wf p rg n -> rg_vel rg = ppath_velocities p ->
+  Lemma snell_ray_path p rg n : path_wf p rg n -> map Some (rg_vel rg) = ppath_velocities p ->
     reflections_in_one_medium p rg -> snell_ray rg n -> snell_path_R p rg.
   Proof.
     intros Hwf Hvel Hrefl Hs j fr Hfr _.
     destruct (frame_at_inv _ _ _ _ Hfr) as (H1 & H2 & H3 & H4 & H5 & H6 & H7).
     assert (Hj : (j < n - 1)%nat).
-    { destruct Hwf as ((_ & _ & _ & _ & Hi & _) & _). rewrite <- Hi. apply nth_error_Some. congruence. }
+    { destruct Hwf as ((_ & _ & _ & _ & _ & Ho) & _).
+      assert (S j < n)%nat by (rewrite <- Ho; apply nth_error_Some; congruence). lia. }
     destruct (Hs j Hj) as (A1 & A2 & A3 & A4).
-    rewrite Hvel in A1, A2, A3.
-    rewrite (ppath_velocities_nth p j _ _ H2 H4) in A1, A3.
-    rewrite (ppath_velocities_nth p (S j) _ _ H3 H5) in A2, A3.
+    rewrite (rg_vel_nth p rg j _ _ Hvel H2 H4) in A1, A3.
+    rewrite (rg_vel_nth p rg (S j) _ _ Hvel H3 H5) in A2, A3.
     rewrite (nth_error_nth _ _ 0 H6) in A3. rewrite (nth_error_nth _ _ 0 H7) in A3, A4.
     unfold snell_frame_R, frame_va, frame_vb.
     destruct (pi_tr (fr_x fr)) as [[|]|] eqn:Etr.
@@ -1159,7 +1342,7 @@ Section RealSnell.
      terms computed on the path are the transmit-side terms computed on the reversed path ===== *)
   Theorem receive_side_is_transmit_side_of_reversed_path p q rg n :
     ppath_reverse p = Ok q -> ray_geometry_from_path p = Ok rg -> path_wf p rg n ->
-    rg_vel rg = ppath_velocities p -> reflections_in_one_medium p rg -> snell_ray rg n ->
+    map Some (rg_vel rg) = ppath_velocities p -> reflections_in_one_medium p rg -> snell_ray rg n ->
     exists rg', ray_geometry_from_path q = Ok rg' /\ rg' = rg_reverse rg /\
       (forall force_complex unit,
          same_outcome (reverse_transmission_reflection_for_path NumR p rg force_complex unit)
@@ -1177,6 +1360,52 @@ Section RealSnell.
     - intros f. symmetry. apply (material_attenuation_path_reversed p q rg n f H Hwf).
   Qed.
 End RealSnell.
+
+(* ===== REPAIR lemmas: the two points on which the run-time tie corrected the model ============= *)
+(* (1) the placeholder standing for a missing transverse velocity (pm_vt_num) is never read:
+   transmission_call / reflection_call raise when the material in the SOLID role has none, and
+   the kernels of Model/Interface.v do not read the transverse velocity of the material in the
+   FLUID role (fluid_solid: material_inc of a transmission / of a reflection; solid_fluid:
+   material_out of a transmission, material_against of a reflection) *)
+Definition set_vt {K} (m : material K) (v : K) : material K := mkMaterial (m_rho m) (m_vl m) v.
+
+Lemma helper_ignores_fluid_role_vt {K} (NK : Num K) (m_inc m_oth : material K) mi mo a u v :
+  transmission_at_interface NK FluidSolid (set_vt m_inc v) m_oth mi mo a u
+  = transmission_at_interface NK FluidSolid m_inc m_oth mi mo a u /\
+  transmission_at_interface NK SolidFluid m_inc (set_vt m_oth v) mi mo a u
+  = transmission_at_interface NK SolidFluid m_inc m_oth mi mo a u /\
+  reflection_at_interface NK SolidFluid m_inc (set_vt m_oth v) mi mo a u
+  = reflection_at_interface NK SolidFluid m_inc m_oth mi mo a u /\
+  reflection_at_interface NK FluidSolid (set_vt m_inc v) m_oth mi mo a u
+  = reflection_at_interface NK FluidSolid m_inc m_oth mi mo a u.
+Proof. repeat split; destruct mi, mo, u; reflexivity. Qed.
+
+(* the helpers as called raise (class EHelper, after the unit / kind / reflection_against checks)
+   when the material in the solid role has no transverse velocity *)
+Lemma helper_raises_without_solid_vt {T K} (NK : Num K) (emb : T -> K) k (m_inc m_oth : pmaterial T) mi mo a u :
+  (pm_vt_missing (match k with FluidSolid => m_oth | SolidFluid => m_inc end) = true ->
+     transmission_call NK emb (Some k) m_inc m_oth mi mo a (Some u) = Raise EHelper) /\
+  (pm_vt_missing (match k with FluidSolid => m_oth | SolidFluid => m_inc end) = true ->
+     reflection_call NK emb (Some k) m_inc (Some m_oth) mi mo a (Some u) = Raise EHelper).
+Proof.
+  unfold transmission_call, reflection_call. split; intros H; rewrite H; reflexivity.
+Qed.
+
+(* (2) conventional_inc_angle over the whole index range: None at the first interface, a value at
+   the interfaces 1..n (the LAST one included), IndexError beyond *)
+Lemma conv_inc_angle_range {T} (rg : raygeom T) n : rg_wf rg n ->
+  rg_conv_inc_angle rg 0 = Raise EAttr /\
+  (forall i, (1 <= i <= n)%nat ->
+     exists th, nth_error (rg_inc rg) (i - 1)%nat = Some th /\ rg_conv_inc_angle rg i = Ok th) /\
+  (forall i, (n < i)%nat -> rg_conv_inc_angle rg i = Raise EIndex).
+Proof.
+  intros Hwf. pose proof Hwf as (Hn & Hni & _ & _ & Hi & _). split; [reflexivity|]. split.
+  - intros i Hi'. destruct (nth_error (rg_inc rg) (i - 1)) as [th|] eqn:E.
+    + exists th. split; [reflexivity|]. apply (inc_angle_ok rg n i th Hwf); [lia | exact E].
+    + apply nth_error_None in E. lia.
+  - intros i Hi'. unfold rg_conv_inc_angle. rewrite Hni.
+    destruct (Nat.eqb_spec i 0); [lia|]. destruct (Nat.leb_spec (S n) i); [reflexivity | lia].
+Qed.
 
 (* ---- bundles for Props/C07.v ---- *)
 Lemma parse_unit_lower_upper s :
